@@ -11,6 +11,7 @@ expr: ["num", x] | ["free", name] | ["meas", mode] | ["tdm", i] | ["add", e, e] 
       | ["sin", e] | ["cos", e] | ["exp", e] | ["pow", e, k]
 """
 import math
+import os
 import traceback
 import warnings
 
@@ -25,6 +26,7 @@ from strawberryfields.tdm import TDMProgram  # noqa: E402
 from strawberryfields import io as sfio  # noqa: E402
 
 MEASURE = ("MeasureFock", "MeasureHomodyne", "MeasureHeterodyne", "MeasureThreshold")
+SCRATCH = os.path.join(os.path.dirname(os.path.dirname(os.path.dirname(os.path.abspath(__file__)))), ".work", "C14", "files")
 
 
 # ------------------------------------------------------------------------------------------
@@ -413,18 +415,75 @@ class Stage(Exception):
         return "%s:%s@%s" % (self.stage, type(self.exc).__name__, self.site)
 
 
-def write_ir(prog, ir):
+def parse_level(level):
+    """A route through the serialisation API is written as '<level>[+option]...':
+       rec   to_program(to_ir(prog, **opts))                 text  loads(to_ir(prog, **opts).serialize())
+       file  sf.save(<path>, prog, ir, **opts); sf.load(<path>, ir)      fileobj  the same through open file objects
+       options: decl (to_xir add_decl=True), v1.1 (to_blackbird version="1.1"), eng-gaussian / eng-fock (generate_code eng=...)"""
+    parts = level.split("+")
+    opts = {}
+    for o in parts[1:]:
+        if o == "decl":
+            opts["add_decl"] = True
+        elif o.startswith("v"):
+            opts["version"] = o[1:]
+        elif o.startswith("eng-"):
+            opts["eng"] = o[4:]
+    return parts[0], opts
+
+
+def write_ir(prog, ir, opts=None):
+    opts = opts or {}
     try:
-        return sfio.to_blackbird(prog) if ir == "bb" else sfio.to_xir(prog)
+        if ir == "bb":
+            return sfio.to_blackbird(prog, **({"version": opts["version"]} if "version" in opts else {}))
+        return sfio.to_xir(prog, **({"add_decl": True} if opts.get("add_decl") else {}))
     except Exception as e:
         raise Stage("write", e)
 
 
+def _frame_names(e):
+    return [fr.name for fr in traceback.extract_tb(e.__traceback__)]
+
+
 def roundtrip(prog, ir, level):
-    """level 'rec': to_program(to_ir(prog)); level 'text': loads(to_ir(prog).serialize()).
-    Returns (loaded_program, text or None).  Raises Stage."""
-    obj = write_ir(prog, ir)
-    if level == "rec":
+    """Returns (loaded_program, text or None).  Raises Stage."""
+    base, opts = parse_level(level)
+    if base in ("file", "fileobj"):
+        # the public file API: sf.save / sf.load (which go through sf.loads and to_program)
+        kw = {"add_decl": True} if (ir == "xir" and opts.get("add_decl")) else {}
+        irname = "blackbird" if ir == "bb" else "xir"
+        os.makedirs(SCRATCH, exist_ok=True)
+        path = os.path.join(SCRATCH, "rt_%d.%s" % (os.getpid(), "xbb" if ir == "bb" else "xir"))
+        try:
+            try:
+                if base == "fileobj":
+                    with open(path, "w") as f:
+                        sf.save(f, prog, ir=irname, **kw)
+                else:
+                    # a name without the extension: save appends it
+                    sf.save(path[:-4], prog, ir=irname, **kw)
+            except Exception as e:
+                raise Stage("serialize" if "serialize" in _frame_names(e) else "write", e)
+            try:
+                if base == "fileobj":
+                    with open(path) as f:
+                        text = f.read()
+                    with open(path) as f:
+                        return sf.load(f, ir=irname), text
+                text = open(path).read()
+                return sf.load(path, ir=irname), text
+            except Exception as e:
+                raise Stage("load" if "to_program" in _frame_names(e) else "parse", e)
+        finally:
+            try:
+                os.remove(path)
+            except OSError:
+                pass
+    obj = write_ir(prog, ir, opts)
+    if ir == "bb" and "version" in opts and obj.version != opts["version"]:
+        raise Stage("write", ValueError("to_blackbird(version=%r) produced version %r" % (opts["version"], obj.version)))
+    if base == "rec":
         try:
             return sfio.to_program(obj), None
         except Exception as e:
@@ -437,6 +496,8 @@ def roundtrip(prog, ir, level):
         if ir == "bb":
             import blackbird
             parsed = blackbird.loads(text)
+            if "version" in opts and parsed.version != opts["version"]:
+                raise ValueError("version %r read back as %r" % (opts["version"], parsed.version))
         else:
             import xir
             parsed = xir.parse_script(text)
@@ -448,18 +509,41 @@ def roundtrip(prog, ir, level):
         raise Stage("load", e)
 
 
-def roundtrip_code(prog):
+def roundtrip_code(prog, level="text"):
+    _, opts = parse_level(level)
+    eng = None
+    if opts.get("eng") == "gaussian":
+        eng = sf.Engine("gaussian")
+    elif opts.get("eng") == "fock":
+        eng = sf.Engine("fock", backend_options={"cutoff_dim": 7})
     try:
-        code = sfio.generate_code(prog)
+        code = sfio.generate_code(prog, eng=eng) if eng is not None else sfio.generate_code(prog)
     except Exception as e:
         raise Stage("write", e)
     ns = {"np": np}
+    run = code
+    if eng is not None:
+        # the generated script ends by running the program; everything before that line is executed
+        lines = code.rstrip("\n").split("\n")
+        if lines[-1].strip() != "results = eng.run(prog)":
+            st = Stage("write", ValueError("generated code does not end with the run statement: %r" % lines[-1]))
+            st.site = "generated-code"
+            raise st
+        run = "\n".join(lines[:-1])
     try:
-        exec(compile(code, "<generated>", "exec"), ns)  # noqa: S102 - code produced by the library under test
+        exec(compile(run, "<generated>", "exec"), ns)  # noqa: S102 - code produced by the library under test
     except Exception as e:
         st = Stage("load", e)
         st.site = "generated-code"
         raise st
+    if eng is not None:
+        e2 = ns.get("eng")
+        got = (getattr(e2, "backend_name", None), (getattr(e2, "backend_options", {}) or {}).get("cutoff_dim"))
+        want = (eng.backend_name, eng.backend_options.get("cutoff_dim"))
+        if got != want:
+            st = Stage("load", ValueError("engine %r regenerated as %r" % (want, got)))
+            st.site = "generated-code-engine"
+            raise st
     return ns["prog"], code
 
 
@@ -790,6 +874,19 @@ def gen_program(rng, wide=True, profile=None):
         c.setdefault("select", None)
         c.setdefault("dark", None)
         cmds.append(c)
+    # repeated applications of the same operation class (2-4 in total), on other / descending modes, dagger flipped
+    if cmds and rng.random() < 0.4:
+        for _ in range(rng.randint(1, 3)):
+            src = rng.choice([c for c in cmds])
+            if src["op"] not in GENERIC or len(live) < NMODES[src["op"]]:
+                continue
+            c2 = copy.deepcopy(src)
+            ms = rng.sample(live, NMODES[src["op"]])
+            c2["modes"] = sorted(ms, reverse=True) if rng.random() < 0.5 else ms
+            c2["p"] = [(draw_num(rng, k) if not isinstance(v, dict) else v) for v, k in zip(src["p"], GENERIC[src["op"]])]
+            if src["op"] in DAGGERABLE and rng.random() < 0.5:
+                c2["dagger"] = not src.get("dagger", False)
+            cmds.insert(rng.randint(0, len(cmds)), c2)
     spec["cmds"] = cmds
     return spec
 
@@ -910,7 +1007,9 @@ def spec_cause(spec):
     return "|".join(parts) if parts else "plain"
 
 
-LEVELS = [("bb", "rec"), ("bb", "text"), ("xir", "rec"), ("xir", "text"), ("code", "text")]
+LEVELS = [("bb", "rec"), ("bb", "text"), ("bb", "text+v1.1"), ("bb", "file"), ("bb", "fileobj"),
+          ("xir", "rec"), ("xir", "text"), ("xir", "rec+decl"), ("xir", "text+decl"), ("xir", "file+decl"), ("xir", "fileobj"),
+          ("code", "text"), ("code", "text+eng-gaussian"), ("code", "text+eng-fock")]
 
 
 def check_roundtrip(spec, ir, level, with_state=True):
@@ -925,11 +1024,11 @@ def check_roundtrip(spec, ir, level, with_state=True):
     tol = 0.0
     try:
         if ir == "code":
-            loaded, text = roundtrip_code(prog)
+            loaded, text = roundtrip_code(prog, level)
             tol = 1e-5  # _factor_out_pi snaps values within np.isclose of a multiple of pi/12
         else:
             # the writer must not modify the program it serialises
-            write_ir(prog, ir)
+            write_ir(prog, ir, parse_level(level)[1])
             v_after = view(prog)
             if v_after != v0:
                 d = diff_views(v0, v_after, ir, compare_n=True)
@@ -945,11 +1044,12 @@ def check_roundtrip(spec, ir, level, with_state=True):
     fields = None
     if ir == "code":
         fields = ()  # generate_code(prog) without an engine does not claim to carry target / options
-    diffs = diff_views(v0, v1, ir, tol=tol, compare_n=(ir == "bb" and level == "rec") or ir == "code", fields=fields)
-    if level == "text" and ir in ("bb", "xir") and diffs:
+    base_level = parse_level(level)[0]
+    diffs = diff_views(v0, v1, ir, tol=tol, compare_n=(ir == "bb" and base_level == "rec") or ir == "code", fields=fields)
+    if base_level != "rec" and ir in ("bb", "xir") and diffs:
         # differences that the object-level round trip does not show are caused by the text layer: marked @text
         try:
-            l2, _ = roundtrip(build(spec), ir, "rec")
+            l2, _ = roundtrip(build(spec), ir, "+".join(["rec"] + [o for o in level.split("+")[1:] if o == "decl"]))
             rec_sigs = {s_ for s_, _ in diff_views(v0, view(l2), ir, tol=tol, compare_n=False, fields=fields)}
         except Stage:
             rec_sigs = None  # the object-level round trip fails outright (reported separately): no attribution possible
@@ -1444,11 +1544,24 @@ def norm_view(v, lits):
 def impl_records(spec, lits):
     """Run the implementation's writers and readers at object level; return canonical results."""
     out = {}
-    for ir in ("bb", "xir"):
+    for ir in ("bb", "xir", "xird"):
         prog = build(spec)
         try:
-            obj = sfio.to_blackbird(prog) if ir == "bb" else sfio.to_xir(prog)
-            out[ir + "_w"] = ("ok", canon_bb(obj, lits) if ir == "bb" else canon_x(obj, lits))
+            if ir == "bb":
+                # the version argument only labels the program
+                ver = "1.%d" % (len(spec["cmds"]) % 3)
+                obj = sfio.to_blackbird(prog, version=ver)
+                if obj.version != ver:
+                    raise AssertionError("to_blackbird(version=%r) gave %r" % (ver, obj.version))
+            else:
+                obj = sfio.to_xir(prog, add_decl=True) if ir == "xird" else sfio.to_xir(prog, add_decl=False)
+            if ir == "xird":
+                cx = canon_x(obj, lits)
+                cx["gate_decls"] = [[g.name, len(g.params), len(g.wires)] for g in obj.declarations["gate"]]
+                cx["out_decls"] = sorted(o.name for o in obj.declarations["out"])
+                out[ir + "_w"] = ("ok", cx)
+            else:
+                out[ir + "_w"] = ("ok", canon_bb(obj, lits) if ir == "bb" else canon_x(obj, lits))
         except Exception as e:
             out[ir + "_w"] = ("err", type(e).__name__)
             out[ir + "_r"] = ("err", type(e).__name__)
@@ -1503,7 +1616,7 @@ def expr_survives(spec):
 # ==========================================================================================
 PROP = "C14"
 LEVEL = "proof"
-COQ_TARGETS = ["C14/Model.vo", "C14/Proofs.vo", "C14/Refuted.vo", "C14/Converse.vo"]
+COQ_TARGETS = ["C14/Model.vo", "C14/Proofs.vo", "C14/Refuted.vo", "C14/Converse.vo", "C14/Decl.vo"]
 COQ_DIRS = ["C14"]
 PROPERTIES_FILE = "Properties/C14.v"
 ALLOWED_AXIOMS = set()
@@ -1511,8 +1624,11 @@ RULE = ("a case is one generated program (1-12 modes incl. non-contiguous / desc
         "operation class of the front end: gates, channels, preparations, four measurement classes, decompositions with array "
         "arguments, Fouriergate, Del; parameters int / float (incl. -0.0, 1e-20, multiples of pi) / complex / 1-d, 2-d real and complex "
         "arrays / strings / bool / free, measured, mixed and TDM-loop-variable expressions; daggers; select / dark_counts; target, "
-        "shots, cutoff_dim; TDM programs with 1-3 arrays, N of 1-3 bands, shift) pushed through Blackbird and XIR at object level and "
-        "at text level and through generate_code; non-trivial = contains a dagger, a select/dark_counts or a symbolic parameter")
+        "shots, cutoff_dim; TDM programs with 1-3 arrays, N of 1-3 bands, shift; the same operation class applied 2-4 times on other / "
+        "descending modes, daggered and not) pushed through every route of the serialisation API: to_blackbird (default and version=), "
+        "to_xir (add_decl False / True), to_program, serialize + blackbird.loads / xir.parse_script, sf.save / sf.load by file name "
+        "(extension appended) and by open file object, generate_code without engine and with a gaussian / fock(cutoff) engine; "
+        "non-trivial = contains a dagger, a select/dark_counts or a symbolic parameter")
 TRUSTED_BASE = [
     "Coq 8.16.1 kernel; vm_compute for evaluating the model on generated programs",
     "hand-written model coq/C14/Model.v of to_blackbird / from_blackbird / from_blackbird_to_tdm / to_xir / from_xir / from_xir_to_tdm / "
@@ -1571,7 +1687,8 @@ def correspondence(ctx):
             "From Coq Require Import List ZArith Bool.", "Import ListNotations.", "From SFV Require Import C14.Model.",
             "Unset Printing Records.",
             "Definition cases : list prog := [", ";\n".join(items) + "].",
-            "Eval vm_compute in map (fun p => (p, to_bb p, bb_roundtrip p, to_xir p, xir_roundtrip p)) cases."])
+            "Eval vm_compute in map (fun p => (p, to_bb p, bb_roundtrip p, to_xir p, xir_roundtrip p, "
+            "(xprog_of (to_xir_opt true p), xgate_decls (to_xir_opt true p), xout_decls (to_xir_opt true p), xir_roundtrip_opt true p))) cases."])
         ok, vals, raw = ctx.coq_eval("cases_%d" % (si // SH), text)
         if not ok or not vals or len(vals[0]) != len(shard):
             ctx.obligation("correspondence:model-eval:shard%d" % (si // SH), False, raw)
@@ -1579,7 +1696,7 @@ def correspondence(ctx):
         for sp, T, mv in zip(shard, tabs, vals[0]):
             ctx.traces += 1
             lits = set(T.lits)
-            p_t, bbw_t, bbr_t, xw_t, xr_t = mv
+            p_t, bbw_t, bbr_t, xw_t, xr_t, (xdw_t, gd_t, od_t, xdr_t) = mv
             # self-check of the encoding: the decoded model program is the built program
             v0 = norm_view(view(build(sp)), lits)
             enc_diff = diff_views(v0, dec_prog(p_t, T), "enc", compare_n=not any(c["op"] in META for c in sp["cmds"]))
@@ -1588,11 +1705,14 @@ def correspondence(ctx):
                 return
             impl = impl_records(sp, lits)
             model = {"bb_w": dec_res(bbw_t, lambda t: dec_bb(t, T)), "bb_r": dec_res(bbr_t, lambda t: dec_prog(t, T)),
-                     "xir_w": ("ok", dec_x(xw_t, T)), "xir_r": dec_res(xr_t, lambda t: dec_prog(t, T))}
+                     "xir_w": ("ok", dec_x(xw_t, T)), "xir_r": dec_res(xr_t, lambda t: dec_prog(t, T)),
+                     "xird_w": ("ok", dict(dec_x(xdw_t, T), gate_decls=[[dec_cls(g[1]), g[2], g[3]] for g in gd_t],
+                                           out_decls=sorted(dec_cls(o) for o in od_t))),
+                     "xird_r": dec_res(xdr_t, lambda t: dec_prog(t, T))}
             ctx.case({"spec": sp, "model": {k: (v[0] if v[0] == "ok" else v[1]) for k, v in model.items()}},
                      nontrivial=nontrivial(sp), bucket="corr:" + "+".join(sorted(spec_features(sp))) if spec_features(sp) else "corr:plain")
             bad = []
-            for k in ("bb_w", "bb_r", "xir_w", "xir_r"):
+            for k in ("bb_w", "bb_r", "xir_w", "xir_r", "xird_w", "xird_r"):
                 m, i = model[k], impl[k]
                 if m[0] != i[0]:
                     bad.append((k, "model %s vs implementation %s" % (m if m[0] == "err" else "ok", i if i[0] == "err" else "ok")))
@@ -1604,7 +1724,7 @@ def correspondence(ctx):
                     if d:
                         bad.append((k, "; ".join(d)[:400]))
                 else:
-                    d = diff_views(m[1], i[1], k[:-2], compare_n=True)
+                    d = diff_views(m[1], i[1], "xir" if k.startswith("xir") else "bb", compare_n=True)
                     if d:
                         bad.append((k, "; ".join(w for _, w in d)[:400]))
             if bad:
@@ -1760,6 +1880,21 @@ def systematic_specs():
     for k in (1, 5, 6, 12, -6, 24):
         for eps in (-2e-7, 2e-7, 0.0):
             out.append(prog([cmd("Sgate", [0.5, k * math.pi / 12 + eps], [0]), cmd("Rgate", [k * math.pi / 12 + eps], [1])]))
+    # the same operation class applied 2-4 times: other modes, descending mode order, daggered and not, other parameters
+    for g in ("Sgate", "Rgate", "BSgate", "S2gate", "Dgate", "CXgate", "Kgate", "LossChannel", "Coherent"):
+        k = NMODES[g]
+        nps = len(GENERIC[g])
+        for reps in (2, 3, 4):
+            cs = []
+            for r in range(reps):
+                ms = [(r + j) % 4 for j in range(k)]
+                if r % 2:
+                    ms = sorted(ms, reverse=True)
+                ps = [0.125 * (r + 1) + 0.25 * j for j in range(nps)]
+                cs.append(cmd(g, ps, ms, dagger=(g in DAGGERABLE and r % 2 == 1)))
+            out.append(prog(cs + [cmd("MeasureHomodyne", [0.1], [0]), cmd("MeasureHomodyne", [0.2], [3])], n=4))
+    out.append(prog([cmd("Rgate", [E(["tdm", 0])], [0]), cmd("BSgate", [0.3, 0.1], [0, 1]), cmd("Rgate", [0.25], [1], dagger=True),
+                     cmd("BSgate", [E(["tdm", 0]), 0.0], [1, 0]), cmd("MeasureHomodyne", [E(["tdm", 0])], [0])], tdm=tdm1))
     # mode layouts
     out.append(prog([cmd("BSgate", [0.4, 0.1], [11, 3]), cmd("S2gate", [0.3, 0.2], [9, 10]), cmd("MeasureFock", [], [11, 0, 5])], n=12))
     out.append(prog([cmd("Sgate", [0.4, 0.1], [0])], n=5))
